@@ -462,6 +462,11 @@ func (t *Tree) CollapseClade(strict bool, name string, tips ...string) (clade *T
 //
 // If removeoutgroup is true, then the outgrouped is removed from the rerooted tree.
 func (t *Tree) RerootOutGroup(removeoutgroup, strict bool, tips ...string) error {
+	// With fewer than 3 tips there is no branch separating an outgroup from two other tips
+	// (and unrooting a two-tip tree leaves a tip as root)
+	if len(t.Tips()) < 3 {
+		return errors.New("cannot reroot on an outgroup a tree with less than 3 tips")
+	}
 	t.UnRoot()
 
 	n, edges, monophyletic, err := t.LeastCommonAncestorUnrooted(nil, tips...)
